@@ -1,3 +1,4 @@
+mod bytes;
 mod cells;
 mod check;
 mod events;
@@ -9,6 +10,9 @@ mod sim;
 use std::time::Instant;
 
 use check::{Outcome, Tier};
+
+#[global_allocator]
+static GLOBAL: bytes::Recorder = bytes::Recorder;
 
 fn usage() -> ! {
     eprintln!("usage: rmc check <C01..C18> --tier quick|thorough [--budget <s>] | rmc replay <file>");
@@ -55,6 +59,9 @@ fn main() {
             }
             check::write_evidence(&out, t0.elapsed().as_secs_f64());
             std::process::exit(check::verdict(&out));
+        }
+        "c06-worker" => {
+            std::process::exit(props::c06::worker(&args[2]));
         }
         "replay" => {
             let code = props::replay(&args[2]);
